@@ -18,7 +18,8 @@ RULE = (
     "ordered parameter pairs/triples of an 11-point grid (integer grid for discrete curves) for discretize end points, "
     "length additivity/symmetry/polyline reference, all defining points for interpolation, a table of query points "
     "displaced 0 / 1 % / 10 % off the curve for closest-parameter queries (vs a 2001-point dense sampling), and OnCurve "
-    "edges between lattice parameter pairs read back from the written file. non-trivial = a distinct evaluated relation"
+    "edges between lattice parameter pairs read back from the written file; the same on curve objects that were evaluated "
+    "and then translated/rotated/scaled/mirrored (histories of <= 2 steps). non-trivial = a distinct evaluated relation"
 )
 ASSUMPTIONS = [
     "AnalyticCurve.get_length is by definition a 100-segment polyline: additivity compared to rel 1e-3; point-defined curves to rel 1e-9",
@@ -46,10 +47,50 @@ def cases(tier, seed):
                 continue
             for fr in frames:
                 out.append({"kind": kind, "points": ps, "frame": fr})
+    # the same relations on a curve object that was evaluated (caches filled) and then transformed: every history
+    # of <= 2 steps over {T translate, R rotate, S scale, M mirror}
+    hist = [(a,) for a in "TRSM"] + [(a, b) for a in "TRSM" for b in "TRSM"]
+    if tier == "quick":
+        hist = [(a,) for a in "TRSM"] + [("T", b) for b in "RSM"] + [(b, "T") for b in "RSM"]
+    for kind in KINDS:
+        if kind == "analytic":
+            continue  # documented as not transformable
+        sets = ["-"] if kind in ("line", "circle") else (list(POINT_SETS) if tier == "thorough" else ["uneven6", "zigzag5"])
+        for ps in sets:
+            for h in hist:
+                for pre in ((1,) if tier == "quick" else (0, 1)):
+                    out.append({"kind": kind, "points": ps, "frame": frames[-1], "history": "".join(h), "pre": pre})
     return out
 
 
+HIST_T = {
+    "T": {"kind": "translate", "d": (0.7, -1.2, 0.4)},
+    "R": {"kind": "rotate", "angle": 0.8, "axis": (1.0, 2.0, 3.0), "origin": (0.5, -0.3, 1.1)},
+    "S": {"kind": "scale", "ratio": 1.7, "origin": (1.0, 1.0, -2.0)},
+    "M": {"kind": "mirror", "normal": (1.0, -2.0, 0.5), "origin": (0.3, 0.8, -0.6)},
+}
+
+
 def make_curve(case):
+    from mc.props import c09
+
+    curve, pts = make_curve0(case)
+    if case.get("history"):
+        if case.get("pre"):
+            lo, hi = curve.bounds
+            curve.discretize()
+            curve.get_length(lo, hi)
+            curve.get_closest_param(curve.get_point((lo + hi) / 2))
+        for op in case["history"]:
+            t = HIST_T[op]
+            L, b, _ = c09.affine_of(t, np.zeros(3))
+            c09.apply_method(curve, t)
+            if pts is not None:
+                pts = np.asarray(pts) @ L.T + b
+    return curve, pts
+
+
+def make_curve0(case):
     import classy_blocks as cb
 
     fr = case["frame"]
